@@ -29,6 +29,6 @@ LEVEL = ('proof',
  'struct, variant whose payload is a structurally identical struct): _partial + _counterexample (`x : E.V = '
  's1` compiles). Correspondence: the C12 pair matrix restricted to nominal rows (~1 M pairs thorough), with '
  "an oracle written from the property text evaluated on the implementation's answers for can_fit_into, max "
- 'and can_cast_to.',
+ 'and can_cast_to, including member-wise for `.{ .. }` literals accepted where a named struct is expected.',
  '§4 C13',
  'Lean 4 proof over the shared type-relation model + differential correspondence on the real crate')
